@@ -402,7 +402,89 @@ var profiles = map[string]profile{
 	"C17": {mask: 1 | 4 | 8, mark: 8, save: 1, load: 2, dupes: 3, orphans: 2},
 }
 
+// genOvertake builds the "fork overtakes after maintenance" scenario: a main chain, several forks at
+// different depths created in random order, more main chain, a maintenance op with a small
+// depth, then one of the forks is extended (heavier bits) until it overtakes; observe throughout.
+func genOvertake(r *coqfmt.Rand, id int, pf profile) Case {
+	c := Case{ID: id, Mask: pf.mask, Twin: -1, Note: "overtake-after-maintenance"}
+	c.MaxDepth = []int{3, 5, 144, 144}[r.Intn(4)]
+	t0 := uint32(1231006505)
+	c.Hdrs = make([]PlanHdr, 1)
+	height := []int{0}
+	add := func(p int, bits uint32) int {
+		c.Hdrs = append(c.Hdrs, PlanHdr{P: p, Bits: bits, T: t0 + uint32(600*(height[p]+1)) + uint32(r.Intn(500))})
+		height = append(height, height[p]+1)
+		return len(c.Hdrs) - 1
+	}
+	obs := func(op Op) { c.Ops = append(c.Ops, op, Op{K: "observe"}) }
+	c.Ops = append(c.Ops, Op{K: "observe"})
+	main := []int{0}
+	m := 4 + r.Intn(8)
+	for i := 0; i < m; i++ {
+		main = append(main, add(main[len(main)-1], 0x1d00ffff))
+		obs(Op{K: "submit", I: main[len(main)-1]})
+	}
+	// forks off main within MaxBranchDepth of the current tip, in random order
+	nf := 1 + r.Intn(3)
+	var forkTips []int
+	for f := 0; f < nf; f++ {
+		lo := len(main) - 1 - c.MaxDepth
+		if lo < 0 {
+			lo = 0
+		}
+		at := lo + r.Intn(len(main)-lo)
+		base := main[at]
+		if f > 0 && r.Chance(1, 3) { // a fork of a fork
+			base = forkTips[r.Intn(len(forkTips))]
+		}
+		tip := add(base, 0x1d00ffff)
+		obs(Op{K: "submit", I: tip})
+		for k := r.Intn(3); k > 0; k-- {
+			tip = add(tip, 0x1d00ffff)
+			obs(Op{K: "submit", I: tip})
+		}
+		forkTips = append(forkTips, tip)
+	}
+	// main grows
+	for i := 2 + r.Intn(10); i > 0; i-- {
+		main = append(main, add(main[len(main)-1], 0x1d00ffff))
+		obs(Op{K: "submit", I: main[len(main)-1]})
+	}
+	maint := func() {
+		d := []int{1, 2, 3, 5, 8}[r.Intn(5)]
+		switch {
+		case pf.load > 0 && r.Chance(1, 2):
+			c.Ops = append(c.Ops, Op{K: "save"})
+			obs(Op{K: "load", D: d + c.MaxDepth})
+		case pf.clean > 0:
+			obs(Op{K: "clean", D: d})
+		case pf.save > 0:
+			obs(Op{K: "save"})
+		}
+	}
+	maint()
+	// one fork overtakes with heavy headers
+	tip := forkTips[r.Intn(len(forkTips))]
+	for i := 0; i < 40 && height[tip] <= height[main[len(main)-1]]+1; i++ {
+		tip = add(tip, 0x1c0fffff)
+		obs(Op{K: "submit", I: tip})
+		if r.Chance(1, 8) {
+			maint()
+		}
+	}
+	maint()
+	// and main (now a side chain) grows a little more
+	for i := r.Intn(3); i > 0; i-- {
+		main = append(main, add(main[len(main)-1], 0x1d00ffff))
+		obs(Op{K: "submit", I: main[len(main)-1]})
+	}
+	return c
+}
+
 func genCase(r *coqfmt.Rand, id int, pf profile, size int) Case {
+	if pf.clean+pf.save+pf.load > 0 && r.Chance(1, 4) {
+		return genOvertake(r, id, pf)
+	}
 	c := Case{ID: id, Mask: pf.mask, Twin: -1}
 	c.MaxDepth = []int{0, 1, 2, 3, 5, 144, 144}[r.Intn(7)]
 	n := 4 + r.Intn(size)
